@@ -103,6 +103,21 @@ class Check(BaseCheck):
             if back != r:
                 rec.violation('C19/row_label_to_index', label=str(r + 1), got=back, expected=r)
             rec.nt(('row', r))
+        # what is not a row label has no row: never a valid (non-negative) index, and no label for a negative index
+        for bad in ['', 'A', '1A', 'x1', '-', '1.5', 'one', '0', '-3', ' ', '$7', '٣x']:
+            rec.case()
+            try:
+                got = hc.row_label_to_index(bad)
+            except Exception as e:
+                got = -1
+                rec.count('row_label_to_index.raised.' + type(e).__name__)
+            if not (isinstance(got, int) and got < 0):
+                rec.violation('C19/row_label_to_index:non-label-yields-a-row', label=bad, got=got)
+        for neg in (-1, -2, -10 ** 6):
+            rec.case()
+            lab = hc.row_index_to_label(neg)
+            if lab not in ('', None):
+                rec.violation('C19/row_index_to_label:negative-index-yields-a-label', row=neg, got=lab)
         rec.sample({'row_index': rows[-1], 'label': str(rows[-1] + 1)})
 
     @staticmethod
